@@ -12,7 +12,8 @@ Case kinds
           replaced by stubs that return "F:<name>" (so the provider that answered is observable);
           (b) the provider's safe_domain_names; (c) rows: small recipes run through
           snowfakery.data_generator.generate — each row is one object template whose fields are `fake:`
-          calls (block form, ${{fake.X}}, ${{fake.X(matching=False)}}); first/last names (and for the
+          calls in every request form of FORM_TEXT / _field_stmt (block, dotted, formula variants), in recipe
+          dialects 2 and 3; first/last names (and for the
           uniqueness witnesses the hostname) can be injected, every value Faker returns at the top level
           is recorded, the two draws of the module-level `random` are injected.
   user    FakeNames.user_name called directly with a stub Faker (boundaries of the truncation)
@@ -37,7 +38,11 @@ RULE = ("cases: per Faker locale (quick: en_US, default, ja_JP, ko_KR + 10 sampl
         "query spelling (exact, case flips, all underscores removed, underscores moved, unknown, non-ASCII) is resolved "
         "by FakerTemplateLibrary with stubbed providers and compared with the model; the provider's safe_domain_names; "
         "rows = recipes run by snowfakery.data_generator.generate with fields `fake: <first/last name spelling>`, "
-        "`fake: email`, `fake: username` in varying order/form — also with nested objects (one and two levels), friends and count loops that fake names of their own between a row's names and its e-mail/username — names genuine or injected (ASCII, punctuation, "
+        "`fake: email`, `fake: username` in varying order — every request (names as well as e-mail/username) in one of the forms "
+        "block `fake: X`, dotted `fake.X: []` / `fake.X: {}` / `fake.X: {matching: False}`, formula `${{fake.X}}`, `${{fake.X()}}`, "
+        "`${{fake[\"X\"]}}`, `${{fake.X + ''}}`, `<<${{fake.X}}>>` inside a text, `${{fake.X(matching=False)}}`, crossed with the "
+        "spellings (first_name, FirstName, firstname, FIRST_NAME, First_Name, fIRSTnAME, Firstname ...) and the recipe dialect "
+        "(no snowfakery_version, 2, 3) — also with nested objects (one and two levels), friends and count loops that fake names of their own between a row's names and its e-mail/username — names genuine or injected (ASCII, punctuation, "
         "1 char, empty, non-ASCII, digits, '@', 100 chars), all Faker return values recorded and replayed in the model, "
         "template/year draws injected; direct calls of FakeNames.user_name/email with stub Faker at the truncation "
         "boundaries; replace_unicode_strings_with_None on boundary code points.  non-trivial: a locale case in which "
@@ -232,6 +237,42 @@ def _table_part(case):
 
 NESTED = "<nested>"
 
+# The ways a recipe can ask for a fake value.  They reach FakeData._get_fake_data on three routes:
+# EvaluationNamespace.fake (block), StructuredValue.render -> getattr(fake, X)(*args, **kwargs) (dotted)
+# and Jinja -> FakerTemplateLibrary.__getattr__ -> StringGenerator (__str__/__call__/__add__/render).
+EMB = ("<<", ">>")
+FORM_TEXT = {
+    "jinja": "${{fake.%s}}",                              # StringGenerator rendered by the formula engine
+    "jcall": "${{fake.%s()}}",                            # StringGenerator.__call__
+    "jitem": '${{fake["%s"]}}',                           # Jinja subscript -> getattr
+    "jadd": "${{fake.%s + ''}}",                          # StringGenerator.__add__
+    "jembed": EMB[0] + "${{fake.%s}}" + EMB[1],           # inside a longer text
+    "nomatch": "${{fake.%s(matching=False)}}",
+    "jitem-nomatch": '${{fake["%s"](matching=False)}}',
+    "jembed-nomatch": EMB[0] + "${{fake.%s(matching=False)}}" + EMB[1],
+}
+EMBED_FORMS = ("jembed", "jembed-nomatch")
+NOMATCH_FORMS = ("nomatch", "dotted-nomatch", "jitem-nomatch", "jembed-nomatch")
+NAME_FORMS = ["block", "jinja", "jcall", "jitem", "jadd", "jembed", "dotted", "dotted-kw"]
+CONTACT_FORMS = NAME_FORMS + list(NOMATCH_FORMS)
+VERSIONS = (None, 2, 3)
+
+
+def is_matching(form):
+    return form not in NOMATCH_FORMS
+
+
+def _field_stmt(q, form):
+    if form == "block":
+        return {"fake": q}
+    if form == "dotted":
+        return {"fake." + q: []}
+    if form == "dotted-kw":
+        return {"fake." + q: {}}
+    if form == "dotted-nomatch":
+        return {"fake." + q: {"matching": False}}
+    return FORM_TEXT[form] % q
+
 
 def template_ops(t):
     """evaluation order of one template instantiation: ("push",) fields/nested/friends ... ("pop",).
@@ -264,12 +305,8 @@ def _template_stmt(name, t):
     for j, f in enumerate(t["fields"]):
         if f[0] == NESTED:
             fields[f"f{j}"] = [_template_stmt(f"{name}_{j}", f[1])]
-        elif f[1] == "block":
-            fields[f"f{j}"] = {"fake": f[0]}
-        elif f[1] == "jinja":
-            fields[f"f{j}"] = "${{fake.%s}}" % f[0]
         else:
-            fields[f"f{j}"] = "${{fake.%s(matching=False)}}" % f[0]
+            fields[f"f{j}"] = _field_stmt(f[0], f[1])
     d = {"object": name}
     if t.get("count", 1) != 1:
         d["count"] = t["count"]
@@ -288,14 +325,21 @@ def _collect(name, t, queues, out):
                 _collect(f"{name}_{j}", f[1], queues, out)
             else:
                 v = row[f"f{j}"]
+                if f[1] in EMBED_FORMS and isinstance(v, str):
+                    if v.startswith(EMB[0]) and v.endswith(EMB[1]) and len(v) >= len(EMB[0]) + len(EMB[1]):
+                        v = v[len(EMB[0]):len(v) - len(EMB[1])]
+                    else:
+                        v = ["other", "unmarked", repr(v)[:60]]
                 out.append(v if isinstance(v, str) else ["other", type(v).__name__, repr(v)[:60]])
         for k, fr in enumerate(t.get("friends", [])):
             _collect(f"{name}_f{k}", fr, queues, out)
 
 
-def _recipe_text(locale, rows, offset):
+def _recipe_text(locale, rows, offset, version=None):
     import yaml
     stmts = []
+    if version is not None:
+        stmts.append({"snowfakery_version": version})
     if locale is not None:
         stmts.append({"var": "snowfakery_locale", "value": locale})
     for i, r in enumerate(rows):
@@ -337,7 +381,7 @@ def _rows_part(case):
             st.row = start
             err = None
             try:
-                generate(io.StringIO(_recipe_text(case["locale"], rows[start:], start)), {}, Cap())
+                generate(io.StringIO(_recipe_text(case["locale"], rows[start:], start, case.get("version"))), {}, Cap())
             except BaseException as e:
                 if type(e).__name__ == "_CaseTimeout":
                     raise
@@ -511,25 +555,36 @@ def _queries(rng, locale, n_names):
     return qs
 
 
+def _name_form(rng):
+    return "block" if rng.random() < .3 else rng.choice(NAME_FORMS)
+
+
+def _contact_form(rng):
+    return "block" if rng.random() < .3 else rng.choice(CONTACT_FORMS)
+
+
 def _gen_row(rng, genuine=False):
     fs, ls = rng.choice(FIRST_SPELL), rng.choice(LAST_SPELL)
+    # one way of asking for the names per row (so that every (form, spelling) pair meets an e-mail
+    # whose names all came that way), mixed ways in the others
+    nform = _name_form(rng) if rng.random() < .6 else None
     layout = rng.choice(["fleu", "fleu", "fleu", "flue", "efl", "fe", "le", "e", "u", "flfle", "fuleu", "lfe", "flu",
                          "fxle", "ufle"])
     fields, inject = [], {}
     nf = nl = 0
     for ch in layout:
         if ch == "f":
-            fields.append([rng.choice(FIRST_SPELL) if rng.random() < .5 else fs, "block"])
+            fields.append([rng.choice(FIRST_SPELL) if rng.random() < .5 else fs, nform or _name_form(rng)])
             nf += 1
         elif ch == "l":
-            fields.append([rng.choice(LAST_SPELL) if rng.random() < .5 else ls, "block"])
+            fields.append([rng.choice(LAST_SPELL) if rng.random() < .5 else ls, nform or _name_form(rng)])
             nl += 1
         elif ch == "x":
-            fields.append([rng.choice(["first_name_female", "LastNameMale", "name", "prefix", "FirstNameMale"]), "block"])
+            fields.append([rng.choice(["first_name_female", "LastNameMale", "name", "prefix", "FirstNameMale"]),
+                           _name_form(rng)])
         else:
             sp = rng.choice(EMAIL_SPELL[:4] if ch == "e" else USER_SPELL[:7])
-            form = rng.choice(["block", "block", "jinja", "nomatch"])
-            fields.append([sp, form])
+            fields.append([sp, _contact_form(rng)])
     if not genuine:
         mode = rng.random()
         if mode < .75:
@@ -544,10 +599,11 @@ def _gen_row(rng, genuine=False):
 def _gen_nested_row(rng, genuine=None):
     """parent names, then a nested object / friend that fakes names (and contact data) of its own,
     then the parent's e-mail / username: they must be built from the parent's names"""
-    F = lambda: [rng.choice(FIRST_SPELL), "block"]
-    L = lambda: [rng.choice(LAST_SPELL), "block"]
-    E = lambda: [rng.choice(EMAIL_SPELL[:4]), rng.choice(["block", "block", "jinja"])]
-    U = lambda: [rng.choice(USER_SPELL[:7]), rng.choice(["block", "block", "jinja"])]
+    matching = [f for f in CONTACT_FORMS if is_matching(f)]
+    F = lambda: [rng.choice(FIRST_SPELL), _name_form(rng)]
+    L = lambda: [rng.choice(LAST_SPELL), _name_form(rng)]
+    E = lambda: [rng.choice(EMAIL_SPELL[:4]), "block" if rng.random() < .3 else rng.choice(matching)]
+    U = lambda: [rng.choice(USER_SPELL[:7]), "block" if rng.random() < .3 else rng.choice(matching)]
     inner = lambda: {"fields": rng.choice([[F(), L()], [F(), L(), E()], [L(), F(), U(), E()], [F()], [E()]])}
     shape = rng.choice(["nested", "nested", "nested", "two-level", "friend", "friend-count", "nested-first",
                         "nested-count", "two-nested"])
@@ -586,8 +642,9 @@ def _probe_rows(rng):
     first, last = rng.choice([("Ann", "Lee"), ("Zoë", "Müller"), ("O'Neil", "de la Cruz"), ("A", "B"),
                               ("Christopher", "Featherstonehaugh")])
     host = rng.choice(["web-01.smith.com", "db-77.mueller-schmidt.info", "lt-5.x.org"])
-    form = rng.choice(["block", "jinja", "nomatch"])
-    row = {"fields": [["FirstName", "block"], ["LastName", "block"], [rng.choice(USER_SPELL[:7]), form]],
+    form = rng.choice(CONTACT_FORMS)
+    row = {"fields": [[rng.choice(FIRST_SPELL), _name_form(rng)], [rng.choice(LAST_SPELL), _name_form(rng)],
+                      [rng.choice(USER_SPELL[:7]), form]],
            "inject": {"first_name": [first, first], "last_name": [last, last], "hostname": [host]}, "draws": []}
     return [row, dict(row)]
 
@@ -596,8 +653,12 @@ def _gen_bulk_row(rng, i):
     layouts = [[["FirstName", "block"], ["LastName", "block"], ["Email", "block"], ["Username", "block"]],
                [["first_name", "block"], ["last_name", "block"], ["email", "jinja"], ["user_name", "jinja"]],
                [["email", "block"], ["username", "block"]],
-               [["FirstName", "block"], ["LastName", "block"], ["Email", "nomatch"], ["UserName", "nomatch"]]]
-    return {"fields": layouts[i % 4], "inject": {},
+               [["FirstName", "block"], ["LastName", "block"], ["Email", "nomatch"], ["UserName", "nomatch"]],
+               [["first_name", "jinja"], ["last_name", "jinja"], ["Email", "block"], ["Username", "block"]],
+               [["First_Name", "dotted"], ["LAST_NAME", "dotted-kw"], ["email", "dotted"], ["user_name", "dotted"]],
+               [["FIRST_NAME", "jcall"], ["Last_Name", "jembed"], ["EMAIL", "jembed"], ["UserName", "jitem"]],
+               [["firstname", "jitem"], ["lastname", "jadd"], ["eMail", "jcall"], ["USER_NAME", "dotted-nomatch"]]]
+    return {"fields": layouts[i % len(layouts)], "inject": {},
             "draws": [rng.randrange(60), rng.randrange(71)]}
 
 
@@ -672,10 +733,11 @@ def generate(rng, tier):
     cases = []
     for loc in chosen:
         cases.append({"kind": "locale", "locale": loc, "part": "table", "queries": _queries(rng, loc, n_names), "rows": []})
-        cases.append({"kind": "locale", "locale": loc, "part": "bulk", "queries": [],
+        cases.append({"kind": "locale", "locale": loc, "part": "bulk", "queries": [], "version": rng.choice(VERSIONS),
                       "rows": [_gen_bulk_row(rng, i) for i in range(n_bulk)]})
-        for _ in range(n_mixed):
+        for k in range(n_mixed):
             cases.append({"kind": "locale", "locale": loc, "part": "mixed", "queries": [],
+                          "version": VERSIONS[(k + len(cases)) % 3],
                           "rows": [_gen_row(rng, genuine=rng.random() < .25) for _ in range(8)]
                                   + [_gen_nested_row(rng) for _ in range(4)] + _probe_rows(rng)})
     for _ in range(250 if tier == "quick" else 2500):
@@ -729,8 +791,17 @@ def _attrs(dirlist, ignore):
     return [n for n in dirlist if not n.startswith("_") and n not in ig]
 
 
+def formula_may_reinterpret(row):
+    """The row sends injected (unrealistic) texts through the formula engine, which reads some of them
+    as Python / number literals ("42" -> 42, "..." -> Ellipsis -> error in dialect 3).  What a formula
+    makes of a text is not this property's matter: such a row's failure is neither compared nor judged."""
+    return bool(row.get("inject")) and any(form in FORM_TEXT for _, form in row_queries(row))
+
+
 def _row_term(row, ob):
     """None if the row cannot be expressed (non-text value, exception inside Faker)"""
+    if "err" in ob and formula_may_reinterpret(row):
+        return None
     for m, v, note in ob.get("flog", []):
         if v is None or not _printable(m):
             return None
@@ -743,7 +814,7 @@ def _row_term(row, ob):
     else:
         return None
     fields = C.clist("OPush" if o[0] == "push" else "OPop" if o[0] == "pop" else
-                     f"(OFake {cname(o[1])} {C.cbool(o[2] != 'nomatch')})" for o in template_ops(row))
+                     f"(OFake {cname(o[1])} {C.cbool(is_matching(o[2]))})" for o in template_ops(row))
     flog = C.clist(C.cpair(cname(m), clit(v)) for m, v, _ in ob.get("flog", []))
     draws = C.clist(C.cpair(C.cz(n), C.cz(v)) for n, v in ob.get("draws", []))
     return f"(Row {fields} {flog} {draws} {exp})"
@@ -883,6 +954,30 @@ def row_walk(row, ob):
             j += 1
 
 
+def spelling_class(q):
+    if "_" in q:
+        return "underscore-lower" if q.islower() else "underscore-upper" if q.isupper() else "underscore-mixed"
+    return "flat-lower" if q.islower() else "flat-upper" if q.isupper() else "flat-mixed"
+
+
+def name_origins(row):
+    """purely syntactic: for every e-mail / username request of the row, how its context's first and
+    last name were asked for: [(kind, form, [(form, spelling) of firstname or None, same for lastname])]"""
+    out, stack, hv = [], [], {}
+    for o in template_ops(row):
+        if o[0] == "push":
+            stack.append(hv)
+            hv = {}
+        elif o[0] == "pop":
+            hv = stack.pop()
+        else:
+            cq = canon(o[1])
+            if cq in (EMAIL_CANON, USER_CANON):
+                out.append(("email" if cq == EMAIL_CANON else "user", o[2], [hv.get("firstname"), hv.get("lastname")]))
+            hv[cq] = (o[2], o[1])
+    return out
+
+
 def surviving_uuid_chars(username, uuid):
     local = username.rsplit("@", 1)[0]
     for k in range(len(uuid), 0, -1):
@@ -967,6 +1062,8 @@ def oracle(case, obs):
         if any(note and note.startswith("raised:") for _, _, note in ob.get("flog", [])):
             continue                      # Faker itself failed; no value was produced
         if "err" in ob:
+            if formula_may_reinterpret(row):
+                continue
             bad = [q for q, _ in row_queries(row) if canon(q) not in
                    ("firstname", "lastname", "email", "username", "firstnamefemale", "lastnamemale", "name", "prefix",
                     "firstnamemale")]
@@ -984,7 +1081,7 @@ def oracle(case, obs):
                 if m:
                     return f"rows: row {i} value {j}: e-mail {m}"
                 f, l = lv.get("firstname"), lv.get("lastname")
-                if (form != "nomatch" and isinstance(f, str) and isinstance(l, str) and _clean(f) and _clean(l)
+                if (is_matching(form) and isinstance(f, str) and isinstance(l, str) and _clean(f) and _clean(l)
                         and not _email_from_names(f, l, v)):
                     return (f"rows: row {i} value {j}: e-mail {v!r} is not built from the ASCII names {f!r} / {l!r} "
                             f"generated earlier in its own row")
@@ -1088,6 +1185,11 @@ def stats(cases, obss):
     per_loc = {}
     qcls = Counter()
     name_cls = Counter()
+    dialects = Counter()
+    req_forms = Counter()
+    origin = Counter()
+    origin_spell = Counter()
+    origin_pairs = set()
     for c, o in zip(cases, obss):
         if not isinstance(o, dict) or "harness_error" in o or o.get("hang"):
             kinds["harness-problem"] += 1
@@ -1107,8 +1209,19 @@ def stats(cases, obss):
             d["attrs"] = len(_attrs(o["fk_dir"], o["ignore"]))
         for qd in c.get("queries", []):
             qcls[qd["cls"]] += 1
+        if c.get("rows"):
+            dialects["snowfakery_version " + str(c.get("version"))] += 1
         for row, ob in zip(c.get("rows", []), o.get("rows", [])):
             injected = set((row.get("inject") or {}).keys())
+            if "vals" in ob:
+                for q, form in row_queries(row):
+                    req_forms[form] += 1
+                for what, form, names in name_origins(row):
+                    if is_matching(form) and names[0] and names[1]:
+                        for nform, nq in names:
+                            origin[f"{what} after name asked as {nform}"] += 1
+                            origin_spell[f"{what} after name spelled {spelling_class(nq)}"] += 1
+                            origin_pairs.add((nform, spelling_class(nq), str(c.get("version"))))
             for m, v, note in ob.get("flog", []):
                 if note and note.startswith("raised:"):
                     d["faker_raised"] += 1
@@ -1144,6 +1257,10 @@ def stats(cases, obss):
     worst = sorted(((v["min_uuid_chars"], k) for k, v in per_loc.items() if v["usernames"]))[:5]
     return {"kinds": dict(kinds), "branches": dict(branch), "errors": dict(errs), "query_classes": dict(qcls),
             "injected_name_classes": dict(name_cls), "locales": len(per_loc),
+            "dialects_of_row_cases": dict(dialects), "request_forms": dict(req_forms),
+            "contact_after_both_names_by_name_form": dict(origin),
+            "contact_after_both_names_by_name_spelling": dict(origin_spell),
+            "distinct_name_form_x_spelling_x_dialect_before_contact": len(origin_pairs),
             "fewest_surviving_uuid_chars_genuine_names": worst,
             "longest_genuine": {"first": max([v["first"] for v in per_loc.values()] or [0]),
                                 "last": max([v["last"] for v in per_loc.values()] or [0]),
@@ -1180,10 +1297,10 @@ def directed_search(rng, disagreeing):
     out = []
     for loc in ["en_US", None, "ja_JP", "de_DE", "th_TH", "fr_FR"]:
         out.append({"kind": "locale", "locale": loc, "part": "table", "queries": _queries(rng, loc, 40), "rows": []})
-        out.append({"kind": "locale", "locale": loc, "part": "bulk", "queries": [],
+        out.append({"kind": "locale", "locale": loc, "part": "bulk", "queries": [], "version": rng.choice(VERSIONS),
                     "rows": [_gen_bulk_row(rng, i) for i in range(120)]})
-        for _ in range(6):
-            out.append({"kind": "locale", "locale": loc, "part": "mixed", "queries": [],
+        for k in range(6):
+            out.append({"kind": "locale", "locale": loc, "part": "mixed", "queries": [], "version": VERSIONS[k % 3],
                         "rows": [_gen_row(rng) for _ in range(8)] + [_gen_nested_row(rng) for _ in range(6)]
                                 + _probe_rows(rng)})
     out.extend(_gen_user(rng) for _ in range(1500))
